@@ -131,12 +131,39 @@ def check_invs(I, lc, fr, name, extra_env=None):
     for i, inv in enumerate(lc.get("inv", [])):
         t = I.E.eval_spec(I, inv, fr, extra_env or {})
         I.st.oblige("%s::%s::%s.inv#%d" % (fr.finfo.qualname, name, lc["_label"], i), I.truthy(t))
+    for tgt, expr in (lc.get("defs") or {}).items():
+        cur = _read_def(I, fr, tgt)
+        want = I.E.eval_spec(I, expr, fr, extra_env or {})
+        I.st.oblige("%s::%s::%s.def(%s)" % (fr.finfo.qualname, name, lc["_label"], tgt), I.equal(cur, want))
 
 
 def assume_invs(I, lc, fr, extra_env=None):
     for inv in lc.get("inv", []):
         t = I.E.eval_spec(I, inv, fr, extra_env or {})
         I.st.assume(zbool(I.truthy(t)))
+    # definitional invariants  target == expr : assumed by *assigning* the value of expr (evaluated in the havocked
+    # state, in order) to the target, so that byte strings keep their rope structure; checked like any invariant
+    for tgt, expr in (lc.get("defs") or {}).items():
+        v = I.E.eval_spec(I, expr, fr, extra_env or {})
+        _assign_def(I, fr, tgt, v)
+
+
+def _assign_def(I, fr, tgt, v):
+    if tgt.startswith("ghost:"):
+        I.st.ghost[tgt[6:]] = v
+    elif "." in tgt:
+        from . import calls
+        sf = calls.spec_frame(I, fr.finfo, {}, None)
+        sf.closure = fr
+        calls.assign_lvalue(I, tgt, v, sf)
+    else:
+        fr.locals[tgt] = v
+
+
+def _read_def(I, fr, tgt):
+    if tgt.startswith("ghost:"):
+        return I.E.eval_spec(I, "ghost(%r)" % tgt[6:], fr, {})
+    return I.E.eval_spec(I, tgt, fr, {})
 
 
 def ghost_snapshot(I):
